@@ -236,14 +236,22 @@ func frBuildNlri(f Family, e frNl, idx int) (NLRI, error) {
 	return nil, fmt.Errorf("family %s has no abstract NLRI builder", f)
 }
 
-func frBuildNlris(f Family, l []frNl) ([]PathNLRI, error) {
+// frPathID: a path identifier only exists on the wire when ADD-PATH is on for the family
+func frPathID(f Family, o frOpts, i int) uint32 {
+	if (f == RF_IPv4_UC && o.Ap4) || (f != RF_IPv4_UC && o.Apmp) {
+		return uint32(i + 1)
+	}
+	return 0
+}
+
+func frBuildNlris(f Family, l []frNl, o frOpts) ([]PathNLRI, error) {
 	r := make([]PathNLRI, 0, len(l))
 	for i, e := range l {
 		n, err := frBuildNlri(f, e, i)
 		if err != nil {
 			return nil, err
 		}
-		r = append(r, PathNLRI{NLRI: n, ID: uint32(i + 1)})
+		r = append(r, PathNLRI{NLRI: n, ID: frPathID(f, o, i)})
 	}
 	return r, nil
 }
@@ -346,7 +354,7 @@ func frBuildAttr(a frAttr, o frOpts) (PathAttributeInterface, error) {
 		if err != nil {
 			return nil, err
 		}
-		nl, err := frBuildNlris(f, a.Nl)
+		nl, err := frBuildNlris(f, a.Nl, o)
 		if err != nil {
 			return nil, err
 		}
@@ -360,7 +368,7 @@ func frBuildAttr(a frAttr, o frOpts) (PathAttributeInterface, error) {
 		if err != nil {
 			return nil, err
 		}
-		nl, err := frBuildNlris(f, a.Nl)
+		nl, err := frBuildNlris(f, a.Nl, o)
 		if err != nil {
 			return nil, err
 		}
@@ -444,11 +452,11 @@ func frBuildCap(c frCap) (ParameterCapabilityInterface, error) {
 func frBuild(s *frShape, o frOpts) (*BGPMessage, error) {
 	switch s.K {
 	case "update":
-		wd, err := frBuildNlris(RF_IPv4_UC, s.Wd)
+		wd, err := frBuildNlris(RF_IPv4_UC, s.Wd, o)
 		if err != nil {
 			return nil, err
 		}
-		nl, err := frBuildNlris(RF_IPv4_UC, s.Nlri)
+		nl, err := frBuildNlris(RF_IPv4_UC, s.Nlri, o)
 		if err != nil {
 			return nil, err
 		}
@@ -704,10 +712,23 @@ func frLensOf(m *BGPMessage, opts []*MarshallingOption) frLens {
 // frDeepEq is reflect.DeepEqual except that a nil slice/map equals an empty one (the decoder
 // allocates empty lists where a constructor leaves nil); returns the path of the first difference.
 func frDeepEq(a, b any) (bool, string) {
-	return frEqV(reflect.ValueOf(a), reflect.ValueOf(b), "", 0)
+	return frEqV(reflect.ValueOf(a), reflect.ValueOf(b), "", 0, false)
 }
 
-func frEqV(a, b reflect.Value, path string, depth int) (bool, string) {
+// frDeepEqValue additionally ignores the fields that only CACHE a wire length (what Len() is
+// computed from; their agreement with the octets is the subject of C04_LenAgrees, not of
+// C04_Equal): PathAttribute.Length, the extended-length bit of PathAttribute.Flags and
+// OpaqueNLRI.Length.
+func frDeepEqValue(a, b any) (bool, string) {
+	return frEqV(reflect.ValueOf(a), reflect.ValueOf(b), "", 0, true)
+}
+
+var (
+	frTypPathAttribute = reflect.TypeOf(PathAttribute{})
+	frTypOpaqueNLRI    = reflect.TypeOf(OpaqueNLRI{})
+)
+
+func frEqV(a, b reflect.Value, path string, depth int, loose bool) (bool, string) {
 	if depth > 64 {
 		return true, ""
 	}
@@ -726,14 +747,14 @@ func frEqV(a, b reflect.Value, path string, depth int) (bool, string) {
 			return false, fmt.Sprintf("%s:len %d vs %d", path, a.Len(), b.Len())
 		}
 		for i := 0; i < a.Len(); i++ {
-			if ok, p := frEqV(a.Index(i), b.Index(i), fmt.Sprintf("%s[%d]", path, i), depth+1); !ok {
+			if ok, p := frEqV(a.Index(i), b.Index(i), fmt.Sprintf("%s[%d]", path, i), depth+1, loose); !ok {
 				return false, p
 			}
 		}
 		return true, ""
 	case reflect.Array:
 		for i := 0; i < a.Len(); i++ {
-			if ok, p := frEqV(a.Index(i), b.Index(i), fmt.Sprintf("%s[%d]", path, i), depth+1); !ok {
+			if ok, p := frEqV(a.Index(i), b.Index(i), fmt.Sprintf("%s[%d]", path, i), depth+1, loose); !ok {
 				return false, p
 			}
 		}
@@ -747,7 +768,7 @@ func frEqV(a, b reflect.Value, path string, depth int) (bool, string) {
 			if !bv.IsValid() {
 				return false, path + ":mapkey"
 			}
-			if ok, p := frEqV(a.MapIndex(k), bv, path+"{}", depth+1); !ok {
+			if ok, p := frEqV(a.MapIndex(k), bv, path+"{}", depth+1, loose); !ok {
 				return false, p
 			}
 		}
@@ -762,10 +783,24 @@ func frEqV(a, b reflect.Value, path string, depth int) (bool, string) {
 		if a.Kind() == reflect.Pointer && a.Pointer() == b.Pointer() {
 			return true, ""
 		}
-		return frEqV(a.Elem(), b.Elem(), path, depth+1)
+		return frEqV(a.Elem(), b.Elem(), path, depth+1, loose)
 	case reflect.Struct:
+		if loose && a.Type() == frTypPathAttribute {
+			fa, fb := a.FieldByName("Flags").Uint(), b.FieldByName("Flags").Uint()
+			ext := uint64(BGP_ATTR_FLAG_EXTENDED_LENGTH)
+			if fa&^ext != fb&^ext {
+				return false, fmt.Sprintf("%s.Flags:%d vs %d", path, fa, fb)
+			}
+			if a.FieldByName("Type").Uint() != b.FieldByName("Type").Uint() {
+				return false, path + ".Type"
+			}
+			return true, ""
+		}
 		for i := 0; i < a.NumField(); i++ {
-			if ok, p := frEqV(a.Field(i), b.Field(i), path+"."+a.Type().Field(i).Name, depth+1); !ok {
+			if loose && a.Type() == frTypOpaqueNLRI && a.Type().Field(i).Name == "Length" {
+				continue
+			}
+			if ok, p := frEqV(a.Field(i), b.Field(i), path+"."+a.Type().Field(i).Name, depth+1, loose); !ok {
 				return false, p
 			}
 		}
